@@ -570,6 +570,7 @@ type failWriter struct {
 	limit int  // fail once more than limit bytes would have been written; <0 never
 	once  bool // a transient fault: only the one write that crosses the limit fails, later writes succeed
 	temp  bool // the error says it is temporary (EAGAIN-like: Temporary() == true)
+	eof   bool // a destination of fixed capacity that reports exhaustion with io.EOF (as a closed pipe does)
 	fired bool
 }
 
@@ -590,6 +591,9 @@ func (w *failWriter) Write(p []byte) (int, error) {
 		w.buf.Write(p[:n])
 		if w.temp {
 			return n, tempErr{}
+		}
+		if w.eof {
+			return n, io.EOF
 		}
 		return n, errors.New("verif-io: injected write failure")
 	}
@@ -620,7 +624,31 @@ func (e *Exec) doWriteTo(c *Cmd) string {
 		}
 		return fmt.Sprintf("%s n=%d", errKind(err), n)
 	}
-	fw := &failWriter{limit: c.num("fail", -1), once: c.str("once", "0") == "1", temp: c.str("temp", "0") == "1"}
+	if c.str("osfile", "0") == "1" {
+		// the destination is an *os.File that already holds other content (longer than the segment) and
+		// stands at its end: the segment is appended there, and what was in front of it stays as it was
+		f, ferr := os.CreateTemp(e.dir, "wt-osfile-*")
+		if ferr != nil {
+			return "scripterror:tmpfile"
+		}
+		defer os.Remove(f.Name())
+		defer f.Close()
+		prefix := bytes.Repeat([]byte{0xA5}, c.num("prefix", 1<<20))
+		if _, ferr = f.Write(prefix); ferr != nil {
+			return "scripterror:tmpfile"
+		}
+		n, werr := segWriteTo(sg, sb, f)
+		if werr != nil {
+			return fmt.Sprintf("%s fail=-1 full=-1", errKind(werr))
+		}
+		all, rerr := os.ReadFile(f.Name())
+		if rerr != nil || len(all) < len(prefix) || !bytes.Equal(all[:len(prefix)], prefix) {
+			return fmt.Sprintf("earlier-content-damaged n=%d filelen=%d prefix=%d", n, len(all), len(prefix))
+		}
+		e.bufs[c.Pos[1]] = append([]byte(nil), all[len(prefix):]...)
+		return fmt.Sprintf("ok n=%d len=%d fail=-1 full=-1", n, len(all)-len(prefix))
+	}
+	fw := &failWriter{limit: c.num("fail", -1), once: c.str("once", "0") == "1", temp: c.str("temp", "0") == "1", eof: c.str("eof", "0") == "1"}
 	var n int64
 	if bs := c.num("bufio", 0); bs > 0 {
 		// the caller's own buffered writer (of any size), flushed by the caller afterwards
@@ -633,7 +661,11 @@ func (e *Exec) doWriteTo(c *Cmd) string {
 		n, err = segWriteTo(sg, sb, fw)
 	}
 	if err != nil {
-		return fmt.Sprintf("%s fail=%d full=%d", errKind(err), fw.limit, c.num("full", -1))
+		kind := errKind(err)
+		if fw.eof && errors.Is(err, io.EOF) {
+			kind = "err:io" // the destination's own error, handed back
+		}
+		return fmt.Sprintf("%s fail=%d full=%d", kind, fw.limit, c.num("full", -1))
 	}
 	e.bufs[c.Pos[1]] = append([]byte(nil), fw.buf.Bytes()...)
 	return fmt.Sprintf("ok n=%d len=%d fail=%d full=%d", n, fw.buf.Len(), fw.limit, c.num("full", -1))
@@ -1675,6 +1707,7 @@ func (e *Exec) expand(c *Cmd, out *bufio.Writer) {
 			}
 			emit(fmt.Sprintf("writeto %s wtmp fail=%d full=%d once=1", seg, l, full))
 			emit(fmt.Sprintf("writeto %s wtmp fail=%d full=%d once=1 temp=1", seg, l, full))
+			emit(fmt.Sprintf("writeto %s wtmp fail=%d full=%d eof=1", seg, l, full))
 			if l%10 == 0 {
 				emit(fmt.Sprintf("writeto %s wtmp fail=%d full=%d once=1 bufio=%d", seg, l, full, bsizes[(l/10)%len(bsizes)]))
 			}
